@@ -6,7 +6,7 @@ import numpy as np
 import common as C
 
 PROP = "C09"
-LEAN_MODULES = ["AcryoVerif.Props.C09"]
+LEAN_MODULES = ["AcryoVerif.Props.C09", "AcryoVerif.Props.C09Array"]
 LEAN_SUPPORT = ["AcryoVerif.Model.Split"]
 KERNELS = ["splitDraws", "splitterComplementary", "splitLoopLoader", "splitLoopGroup", "splitSqueeze", "averageIsPlainMean"]
 TRUSTED = [
@@ -62,6 +62,47 @@ def correspondence(rng, thorough):
         i0, i1 = random_splitter(_StubRng(draws), n)
         lines.append(f"m:split {n} " + " ".join(map(str, draws)))
         impl.append("".join("1" if b else "0" for b in i0) + " " + "".join("1" if b else "0" for b in i1))
+    # array level (C09Array): the real average_split of a real loader with a prescribed draw stream; the half maps
+    # (means of integer-valued blocks of 2..8 images) are compared as round(840 * value) = 840 * exact mean
+    import dask
+    import dask.array as da
+    from unittest import mock
+    from acryo import SubtomogramLoader, Molecules
+    stats["avgsplit"] = {"cases": 0, "n_set_gt1": 0, "dask": 0}
+
+    class _SeqRng:                     # one generator for the whole call: every choice() consumes its draws
+        def __init__(self, draws):
+            self.draws = list(draws)
+
+        def choice(self, arr, size=None, *a, **kw):
+            k = int(size)
+            out, self.draws = self.draws[:k], self.draws[k:]
+            assert len(out) == k
+            return np.array(out, dtype=np.int64)
+
+    for it in range(18 if thorough else 8):
+        n = int(rng.integers(2, 9))
+        nset = int([1, 2, 3, 2][it % 4])
+        tomo = rng.integers(-9, 10, size=(12, 12, 14)).astype(np.float32)
+        corners = [(int(rng.integers(1, 9)), int(rng.integers(1, 9)), int(rng.integers(1, 11))) for _ in range(n)]
+        pos = np.array(corners, dtype=np.float32) + 0.5          # 2x2x2 boxes at grid-coincident positions
+        stream = [int(x) for x in rng.integers(0, n, size=nset * (n // 2))]
+        img = da.from_array(tomo, chunks=(5, 6, 7)) if it % 2 else tomo
+        ld = SubtomogramLoader(img, Molecules(pos), order=0, output_shape=(2, 2, 2))
+        try:
+            with dask.config.set(scheduler="synchronous"), mock.patch("numpy.random.default_rng", lambda seed=None: _SeqRng(stream)):
+                hs = np.asarray(ld.average_split(n_set=nset, seed=0, squeeze=False))
+            got = " ; ".join(" | ".join(" ".join(str(int(round(float(x) * 840))) for x in hs[s_, h_].reshape(-1)) for h_ in (0, 1))
+                             for s_ in range(hs.shape[0])) if hs.shape[1:] == (2, 2, 2, 2) else f"shape {hs.shape}"
+        except Exception as e:  # noqa: BLE001
+            got = "error " + type(e).__name__ + " " + str(e)[:60]
+        blocks = [tomo[z:z + 2, y:y + 2, x:x + 2].reshape(-1) for z, y, x in corners]
+        stats["avgsplit"]["cases"] += 1
+        stats["avgsplit"]["n_set_gt1"] += nset > 1
+        stats["avgsplit"]["dask"] += it % 2
+        lines.append(f"m:avgsplit 8 {n} {nset} {len(stream)} " + " ".join(map(str, stream)) + (" " if stream else "")
+                     + " ".join(C.rat_str(x) for b in blocks for x in b))
+        impl.append(got)
     return lines, impl, stats
 
 
